@@ -366,3 +366,306 @@ def e2e_guc(ctx):
             h.I.assumptions.append(req.fields["destination"].fields["mid"].fields["mid"].bs[i] == RX_MID[i])
         _e2e(ctx, f"GUC[L={L}]", h, req, HeaderType.GEOUNICAST, L)
     ctx.bound("GUC to a destination known to the sender's location table (arbitrary entry), destination = the receiving station")
+
+
+# ------------------------------------------------------------------------------------------------ V3 location-service buffering
+from ..values import TimerRec
+from ..facil import cond_or
+from flexstack.geonet.location_table import LocationTableEntry
+from flexstack.geonet.ls_extended_header import LSReplyExtendedHeader
+from flexstack.geonet.position_vector import LongPositionVector, ShortPositionVector
+from flexstack.geonet.service_access_point import ResultCode
+import dataclasses as _dc
+
+LS_DEST = GNAddress(m=M.GN_UNICAST, st=ST.PASSENGER_CAR, mid=MID(b"\x0a\x0a\x0a\x0a\x0a\x0a"))
+
+
+def _list_view(I, v, n=4):
+    """(length term, is_at(i, obj) -> Bool) of a possibly guarded symbolic list"""
+    alts = [(c, x) for c, x in v.alts if isinstance(x, SList)] if isinstance(v, Guarded) else ([(TRUE, v)] if isinstance(v, SList) else [])
+    lens = []
+    for c, x in alts:
+        k = sum([z3.If(I._lb(cc), 1, 0) for cc, _ in x.items]) if x.items else z3.IntVal(0)
+        lens.append((c, k if isinstance(k, z3.ExprRef) else z3.IntVal(k)))
+    ln = z3.IntVal(0)
+    for c, k in reversed(lens):
+        ln = z3.If(c, k, ln)
+
+    def is_at(i, obj):
+        out = []
+        for c, x in alts:
+            n1 = len(I.raises)
+            e = I.slist_index(x, i, TRUE) if x.items else None
+            del I.raises[n1:]
+            if e is None:
+                continue
+            out.append(z3.And(c, I._lb(I.identical(e, obj))))
+        return z3.Or(*out) if out else FALSE
+    return ln, is_at
+
+
+def _gnum(I, v):
+    """integer term of a possibly guarded number"""
+    if isinstance(v, Guarded):
+        alts = [(c, _gnum(I, x)) for c, x in v.alts if not isinstance(x, type(UNDEF)) and x is not None]
+        r = alts[-1][1]
+        for c, x in reversed(alts[:-1]):
+            r = z3.If(c, x, r)
+        return r
+    return I.num(v)
+
+
+def _ls_harness(nbuf=2):
+    """router whose location-service bookkeeping is in an arbitrary state for one destination: LocTE present or not, lookup pending
+    or not, up to `nbuf` requests already waiting, arbitrary retransmission count"""
+    h = Harness(8 * 24 + 128, table="none", ego="real")
+    I = h.I
+    present, pending, flag = z3.Bool("locte_present"), z3.Bool("lookup_pending"), z3.Bool("locte_ls_pending_flag")
+    # the LocTE flag is only set while the router's own bookkeeping says a lookup is in progress; the converse does not hold
+    # (the placeholder LocTE expires with the next table refresh and may be re-created by any reception from that station)
+    I.assumptions.append(z3.Implies(flag, z3.And(pending, present)))
+    entry = Obj(LocationTableEntry, dict(mib=h.R.mib, position_vector=G.sym_lpv(I, "de_pv"), is_neighbour=z3.Bool("de_nb"), ls_pending=flag,
+                                         pdr=I.const(0) if hasattr(I, "const") else 0))
+    entry.fields["position_vector"].fields["gn_addr"] = LS_DEST
+    fresh_entry = Obj(LocationTableEntry, dict(mib=h.R.mib, position_vector=I.lift_value(_dc.replace(LongPositionVector(), gn_addr=LS_DEST)),
+                                               is_neighbour=False, ls_pending=False, pdr=0))
+    created = []
+    lt = Opaque("location_table")
+
+    def table(it, name, a, k, pc):
+        it.events.append((pc, "tbl." + name, a))
+        if name == "get_entry":
+            return it.ite(z3.Or(present, cond_or(c for c in created)), it.ite(present, entry, fresh_entry), None)
+        if name == "ensure_entry":
+            created.append(z3.And(pc, z3.Not(present)))
+            return it.ite(present, entry, fresh_entry)
+        if name == "get_neighbours":
+            return SList([(z3.Bool("has_neighbour"), entry)])
+        if name.startswith("new_"):
+            return None
+        raise NotImplementedError(name)
+    I.stubs[id(lt)] = table
+    h.Ro.fields["location_table"] = lt
+    ls_sent, guc = [], []
+    I.stubs[Router._send_ls_request_packet] = lambda it, a, k, pc: ls_sent.append(pc)
+    olds = [Opaque(f"waiting_request_{i}") for i in range(nbuf)]
+    hasw = [z3.Bool(f"request_{i}_waiting") for i in range(nbuf)]
+    for i in range(1, nbuf):
+        I.assumptions.append(z3.Implies(hasw[i], hasw[i - 1]))
+    nold = sum([z3.If(b, 1, 0) for b in hasw])
+    cnt = I.int_var("retransmit_count", 0, 12)
+    timer0 = TimerRec(1.0, None, [], TRUE)
+    I.assumptions.append(z3.Implies(z3.Not(pending), z3.Not(hasw[0])))
+    h.Ro.fields["_ls_packet_buffers"] = SDict([(pending, LS_DEST, SList([(hasw[i], olds[i]) for i in range(nbuf)]), False)])
+    h.Ro.fields["_ls_retransmit_counters"] = SDict([(pending, LS_DEST, cnt, False)])
+    h.Ro.fields["_ls_timers"] = SDict([(pending, LS_DEST, timer0, False)])
+    vars_ = {"locte_present": present, "lookup_pending": pending, "locte_ls_pending_flag": flag, "retransmit_count": cnt}
+    vars_.update({f"request_{i}_waiting": hasw[i] for i in range(nbuf)})
+    return h, dict(present=present, pending=pending, flag=flag, entry=entry, fresh=fresh_entry, ls_sent=ls_sent, guc=guc, olds=olds, nold=nold, cnt=cnt, timer0=timer0,
+                   created=created, vars=vars_)
+
+
+def _ls_real_router(vals, nbuf=2):
+    from unittest import mock
+    R, ll, got = real_router()
+    state = {"pending": bool(vals["lookup_pending"]), "present": bool(vals["locte_present"])}
+
+    class Entry:
+        def __init__(self, pending):
+            self.ls_pending = pending
+            self.position_vector = _dc.replace(LongPositionVector(), gn_addr=LS_DEST, latitude=415520000, longitude=21340000)
+            self.is_neighbour = True
+            self.pdr = 0.0
+    ent = Entry(bool(vals.get("locte_ls_pending_flag", state["pending"])))
+    holder = {"e": ent if state["present"] else None}
+    lt = mock.Mock()
+    lt.get_entry.side_effect = lambda a: holder["e"]
+
+    def ensure(a):
+        if holder["e"] is None:
+            holder["e"] = Entry(False)
+            holder["e"].position_vector = _dc.replace(LongPositionVector(), gn_addr=LS_DEST)
+        return holder["e"]
+    lt.ensure_entry.side_effect = ensure
+    lt.get_neighbours.return_value = [ent]
+    R.location_table = lt
+    waiting = [f"waiting-{i}" for i in range(nbuf) if vals.get(f"request_{i}_waiting")]
+    timer0 = mock.Mock()
+    if state["pending"]:
+        R._ls_packet_buffers[LS_DEST] = list(waiting)
+        R._ls_retransmit_counters[LS_DEST] = vals["retransmit_count"]
+        R._ls_timers[LS_DEST] = timer0
+    ls_sent = []
+    R._send_ls_request_packet = lambda a: ls_sent.append(a)
+    return R, ll, holder, waiting, timer0, ls_sent
+
+
+@vc("C01", "V3-ls-request-while-unknown-or-pending")
+def ls_request_buffered(ctx):
+    """a geo-unicast request for a destination that is unknown, or whose lookup is pending, is not sent but queued last; exactly one
+    LS request starts a new lookup"""
+    h, s = _ls_harness()
+    I = h.I
+    req = sym_request(I, "rq", HeaderType.GEOUNICAST, TopoBroadcastHST.SINGLE_HOP, 4, None, destination=LS_DEST)
+    req.fields["packet_transport_type"] = PacketTransportType(header_type=HeaderType.GEOUNICAST, header_subtype=HeaderSubType.UNSPECIFIED)
+    n0 = len(I.raises)
+    conf = h.call(Router.gn_data_request_guc, req)
+    exc = exc_of(I, n0)
+    unresolved = z3.Or(z3.Not(s["present"]), s["flag"])
+    sent = cond_or(c for c, _ in h.sent)
+    buf_found, buf = I.sdict_lookup(I._as_sdict(h.Ro.fields["_ls_packet_buffers"]), LS_DEST)
+    blen, is_at = _list_view(I, buf)
+    last_is_req = z3.Or(*[z3.And(blen == k + 1, is_at(k, req)) for k in range(3)])
+    olds_kept = z3.And(*[z3.Implies(s["nold"] > i, is_at(i, s["olds"][i])) for i in range(2)])
+    n_ls = sum([z3.If(c, 1, 0) for c in s["ls_sent"]]) if s["ls_sent"] else z3.IntVal(0)
+    # afterwards a lookup is in progress: the router holds a buffer for the destination, and a LocTE created for a new lookup is flagged
+    pend_after = z3.And(I._lb(buf_found), z3.Implies(z3.And(z3.Not(s["present"]), z3.Not(s["pending"])), I.to_bool(s["fresh"].fields["ls_pending"])))
+
+    def replay(vals):
+        R, ll, holder, waiting, timer0, ls_sent = _ls_real_router(vals)
+        from unittest import mock
+        import flexstack.geonet.router as RM
+        rq = GNDataRequest(upper_protocol_entity=CommonNH.BTP_B, packet_transport_type=PacketTransportType(header_type=HeaderType.GEOUNICAST, header_subtype=HeaderSubType.UNSPECIFIED),
+                           communication_profile=CommunicationProfile.UNSPECIFIED, traffic_class=TrafficClass(), length=4, data=b"DATA", destination=LS_DEST)
+        with mock.patch.object(RM, "Timer", lambda *a, **k: mock.Mock()):
+            conf_ = R.gn_data_request_guc(rq)
+        buf_ = R._ls_packet_buffers.get(LS_DEST, [])
+        unresolved_ = (not vals["locte_present"]) or vals["locte_ls_pending_flag"]
+        bad = []
+        if unresolved_:
+            if ll.sent:
+                bad.append(f"{len(ll.sent)} packet(s) put on the air although the destination is not resolved (destination position vector "
+                           f"lat={holder['e'].position_vector.latitude} lon={holder['e'].position_vector.longitude})")
+            if not buf_ or buf_[-1] is not rq:
+                bad.append("the request is not the last one waiting for the lookup")
+            if buf_[:len(waiting)] != waiting and not (buf_ and buf_[-1] is not rq):
+                bad.append("requests that were already waiting were dropped or reordered")
+            if len(ls_sent) != (0 if vals["lookup_pending"] else 1):
+                bad.append(f"{len(ls_sent)} LS requests emitted")
+            if LS_DEST not in R._ls_packet_buffers or (not vals["locte_present"] and not vals["lookup_pending"] and not holder["e"].ls_pending):
+                bad.append("no lookup in progress afterwards")
+        return bool(bad), "geo-unicast request, " + ("no LocTE" if not vals["locte_present"] else "placeholder LocTE of a pending lookup" if vals["locte_ls_pending_flag"] else "destination known") + \
+            (", lookup in progress" if vals["lookup_pending"] else ", no lookup in progress") + \
+            ": " + ("; ".join(bad) or "ok") + f" (buffer {buf_})"
+    vars_ = dict(s["vars"])
+    ctx.witness("ls-request-reach-unknown", I, z3.And(z3.Not(s["present"]), z3.Not(exc)), vars=vars_)
+    ctx.witness("ls-request-reach-pending", I, z3.And(s["present"], s["flag"], s["nold"] == 1, z3.Not(exc)), vars=vars_)
+    ctx.witness("ls-request-reach-pending-with-expired-placeholder", I, z3.And(z3.Not(s["present"]), s["pending"], s["nold"] == 2, z3.Not(exc)), vars=vars_)
+    ctx.prove("ls-request-no-exception", I, exc, vars=vars_, replay=replay)
+    ctx.prove("ls-request-nothing-sent-while-unresolved", I, z3.And(unresolved, sent), vars=vars_, replay=replay,
+              desc="no packet of the request reaches the link layer while the destination is unknown or its lookup is pending")
+    ctx.prove("ls-request-queued-last", I, z3.And(unresolved, z3.Not(z3.And(I._lb(buf_found), last_is_req))), vars=vars_, replay=replay,
+              desc="the request is appended after the requests already waiting for that destination (order per destination)")
+    ctx.prove("ls-request-earlier-requests-kept", I, z3.And(unresolved, z3.Not(olds_kept)), vars=vars_, replay=replay)
+    ctx.prove("ls-request-one-ls-request-per-new-lookup", I, z3.And(unresolved, n_ls != z3.If(s["pending"], 0, 1)), vars=vars_, replay=replay)
+    ctx.prove("ls-request-lookup-pending-afterwards", I, z3.And(unresolved, z3.Not(pend_after)), vars=vars_, replay=replay)
+    ctx.bound("one destination; LocTE present or not, its ls_pending flag set or not, lookup in progress or not (flag implies lookup and LocTE, not conversely: the placeholder "
+              "LocTE may have expired or been re-created by an unrelated reception), 0..2 requests already waiting; payload 4 octets (content irrelevant here)")
+    ctx.stub("location table answers for the one destination (get_entry / ensure_entry / get_neighbours); _send_ls_request_packet recorded; threading.Timer recorded")
+
+
+@vc("C01", "V3-ls-reply-flushes-in-order")
+def ls_reply_flush(ctx):
+    """the LS reply of the sought station hands every waiting request, in order, exactly once to the geo-unicast source operation"""
+    h, s = _ls_harness()
+    I = h.I
+    I.assumptions.append(s["pending"])
+    hdr = LSReplyExtendedHeader(sn=5, so_pv=_dc.replace(LongPositionVector(), gn_addr=LS_DEST),
+                                de_pv=_dc.replace(ShortPositionVector(), gn_addr=h.R.mib.itsGnLocalGnAddr))
+    I.stubs[LSReplyExtendedHeader.decode] = lambda it, a, k, pc: hdr
+    order = []
+    I.stubs[Router.gn_data_request_guc] = lambda it, a, k, pc: order.append((pc, a[1]))
+    from flexstack.geonet.basic_header import BasicHeader
+    from flexstack.geonet.common_header import CommonHeader
+    n0 = len(I.raises)
+    h.call(Router.gn_data_indicate_ls_reply, bytes(60), CommonHeader(), BasicHeader())
+    exc = exc_of(I, n0)
+    nold = s["nold"]
+    calls_of = lambda o: sum([z3.If(z3.And(c, I._lb(I.identical(r, o))), 1, 0) for c, r in order]) if order else z3.IntVal(0)
+    in_order = TRUE
+    if len(order) >= 2:
+        # the k-th executed hand-over is the k-th waiting request
+        in_order = z3.And(*[z3.Implies(order[i][0], I._lb(I.identical(order[i][1], s["olds"][i]))) for i in range(min(len(order), 2))])
+    buf_found, _ = I.sdict_lookup(I._as_sdict(h.Ro.fields["_ls_packet_buffers"]), LS_DEST)
+    pend_after = I.to_bool(s["entry"].fields["ls_pending"])
+    cancelled = s["timer0"].cancelled if hasattr(s["timer0"], "cancelled") else None
+
+    def replay(vals):
+        vals = dict(vals, lookup_pending=True)
+        R, ll, holder, waiting, timer0, ls_sent = _ls_real_router(vals)
+        handed = []
+        R.gn_data_request_guc = lambda r: handed.append(r)
+        R.duplicate_address_detection = lambda a: None
+        R.gn_data_indicate_ls_reply(hdr.encode(), CommonHeader(), BasicHeader())
+        bad = []
+        if handed != waiting:
+            bad.append(f"waiting requests {waiting} were handed over as {handed}")
+        if LS_DEST in R._ls_packet_buffers:
+            bad.append("buffer not emptied")
+        if holder["e"] is not None and holder["e"].ls_pending:
+            bad.append("lookup still pending")
+        if not timer0.cancel.called:
+            bad.append("retransmission timer not stopped")
+        return bool(bad), f"LS reply with {len(waiting)} waiting request(s), LocTE flag ls_pending={vals['lookup_pending']} present={vals['locte_present']}: " + ("; ".join(bad) or "ok")
+    vars_ = dict(s["vars"])
+    ctx.witness("ls-reply-reach-two-waiting", I, z3.And(nold == 2, z3.Not(exc)), vars=vars_)
+    ctx.prove("ls-reply-no-exception", I, exc, vars=vars_, replay=replay)
+    for i in range(2):
+        ctx.prove(f"ls-reply-waiting-request-{i}-handed-over-exactly-once", I, z3.And(nold > i, calls_of(s["olds"][i]) != 1), vars=vars_, replay=replay,
+                  desc="also when the LocTE flag of the sought station was lost in between (entry expired and re-created by the reply)")
+    ctx.prove("ls-reply-nothing-else-handed-over", I, (sum([z3.If(c, 1, 0) for c, r in order]) if order else z3.IntVal(0)) != nold, vars=vars_, replay=replay)
+    ctx.prove("ls-reply-in-request-order", I, z3.Not(in_order), vars=vars_, replay=replay)
+    ctx.prove("ls-reply-buffer-emptied-and-lookup-closed", I, z3.Or(I._lb(buf_found), z3.And(s["present"], pend_after)), vars=vars_, replay=replay)
+    ctx.bound("reply from the sought station addressed to this station; 0..2 waiting requests; the LocTE of the sought station present or not, its ls_pending flag arbitrary")
+    ctx.stub("LS reply decoder returns the tracked header; gn_data_request_guc recorded (its own behaviour: V2 / V3-ls-request); location table as in V3-ls-request")
+
+
+@vc("C01", "V3-ls-retransmission-and-give-up")
+def ls_retransmit(ctx):
+    """retransmission timer: below the retry limit the LS request is repeated and every waiting request is kept; at the limit the
+    waiting requests are dropped and the lookup is closed"""
+    h, s = _ls_harness()
+    I = h.I
+    I.assumptions.append(s["pending"])
+    I.assumptions.append(s["present"])
+    n0 = len(I.raises)
+    h.call(Router._ls_retransmit, LS_DEST)
+    exc = exc_of(I, n0)
+    MAXR = h.R.mib.itsGnLocationServiceMaxRetrans
+    cnt = I.num(s["cnt"])
+    buf_found, buf = I.sdict_lookup(I._as_sdict(h.Ro.fields["_ls_packet_buffers"]), LS_DEST)
+    cfound, cval = I.sdict_lookup(I._as_sdict(h.Ro.fields["_ls_retransmit_counters"]), LS_DEST)
+    n_ls = sum([z3.If(c, 1, 0) for c in s["ls_sent"]]) if s["ls_sent"] else z3.IntVal(0)
+    blen, _ = _list_view(I, buf)
+    pend_after = I.to_bool(s["entry"].fields["ls_pending"])
+
+    def replay(vals):
+        vals = dict(vals, lookup_pending=True, locte_present=True)
+        from unittest import mock
+        import flexstack.geonet.router as RM
+        R, ll, holder, waiting, timer0, ls_sent = _ls_real_router(vals)
+        with mock.patch.object(RM, "Timer", lambda *a, **k: mock.Mock()):
+            R._ls_retransmit(LS_DEST)
+        bad = []
+        if vals["retransmit_count"] < MAXR:
+            if R._ls_packet_buffers.get(LS_DEST) != waiting:
+                bad.append("waiting requests changed by a retransmission")
+            if len(ls_sent) != 1:
+                bad.append(f"{len(ls_sent)} LS requests sent")
+            if R._ls_retransmit_counters.get(LS_DEST) != vals["retransmit_count"] + 1:
+                bad.append("retry counter not advanced by one")
+            if holder["e"].ls_pending != bool(vals.get("locte_ls_pending_flag")):
+                bad.append("LocTE lookup flag changed by a retransmission below the limit")
+        else:
+            if LS_DEST in R._ls_packet_buffers or holder["e"].ls_pending or ls_sent or ll.sent:
+                bad.append("give-up did not drop the waiting requests / close the lookup, or something was sent")
+        return bool(bad), f"retransmission with count {vals['retransmit_count']} (limit {MAXR}), {len(waiting)} waiting: " + ("; ".join(bad) or "ok")
+    vars_ = dict(s["vars"])
+    ctx.witness("ls-retransmit-reach-give-up", I, z3.And(cnt >= MAXR, z3.Not(exc)), vars=vars_)
+    ctx.witness("ls-retransmit-reach-repeat", I, z3.And(cnt < MAXR, s["nold"] == 2, z3.Not(exc)), vars=vars_)
+    ctx.prove("ls-retransmit-no-exception", I, exc, vars=vars_, replay=replay)
+    ctx.prove("ls-retransmit-below-limit-repeats-and-keeps", I, z3.And(cnt < MAXR, z3.Not(z3.And(I._lb(buf_found), blen == s["nold"], n_ls == 1, I._lb(cfound),
+                                                                                              _gnum(I, cval) == cnt + 1, pend_after == s["flag"]))), vars=vars_, replay=replay,
+              desc="a retransmission below the limit repeats the LS request once, advances the counter and leaves waiting requests and the LocTE flag alone")
+    ctx.prove("ls-retransmit-at-limit-drops-and-closes", I, z3.And(cnt >= MAXR, z3.Or(I._lb(buf_found), n_ls != 0, pend_after, cond_or(c for c, _ in h.sent))), vars=vars_, replay=replay)
+    ctx.bound("retry count 0..12 against itsGnLocationServiceMaxRetrans of the default MIB; 0..2 waiting requests")
